@@ -21,6 +21,8 @@ ResP(v) == IF v >= 0 THEN (IF v >= UP THEN v - UP ELSE v) ELSE (LET w == v + UP 
 Judge(e) ==
   IF e.ev = "u32bin" THEN
     LET ok == e.add = AddP(e.a, e.b) /\ e.sub = SubP(e.a, e.b) /\ e.mul = MulP(e.a, e.b)
+              /\ e.add_assign = e.add /\ e.sub_assign = e.sub /\ e.mul_assign = e.mul /\ e.multiply = e.mul
+              /\ (e.b # 0 => (e.div >= 0 /\ e.div < UP /\ MulP(e.div, e.b) = e.a))
     IN [ok |-> ok, branch |-> "bin", detail |-> IF ok THEN <<>> ELSE <<e.a, e.b, "spec", AddP(e.a, e.b), SubP(e.a, e.b), MulP(e.a, e.b)>>]
   ELSE IF e.ev = "u32un" THEN
     LET ok == e.neg = SubP(0, e.a) /\ e.inv = InvP(e.a) /\ e.bal = BalP(e.a) /\ (e.a # 0 => MulP(e.a, e.inv) = 1)
